@@ -208,6 +208,7 @@ func c12(r *lp.Run) {
 	c12Equivalence(r, rng)
 	c12SpecKeys(r)
 	c12SpecKeySets(r, rng)
+	c12SpecKeyParts(r, rng)
 	c12Router(r, rng)
 }
 
@@ -278,6 +279,71 @@ func c12SpecKeySets(r *lp.Run, rng *lp.Rand) {
 	}
 }
 
+// respellStatic: respellEscaped applied to the text outside {parameter} markers only
+func respellStatic(rng *lp.Rand, t string) string {
+	var sb strings.Builder
+	last := 0
+	for _, l := range tmplParamRe.FindAllStringIndex(t, -1) {
+		sb.WriteString(respellEscaped(rng, t[last:l[0]]))
+		sb.WriteString(t[l[0]:l[1]])
+		last = l[1]
+	}
+	sb.WriteString(respellEscaped(rng, t[last:]))
+	return sb.String()
+}
+
+// a spec path key with parameters is held in normal form part by part: whatever the spelling of its static
+// text (before, between and after parameters), the parsed path is the parsed path of the canonical key
+func c12SpecKeyParts(r *lp.Run, rng *lp.Rand) {
+	segs := []string{"pets", "ph%6Ftos", "a%2Fb", "x~y", "a-b", "%C3%A9", "v1.0", "a%20b", "Zed"}
+	n := r.N(400, 8000)
+	for i := 0; i < n; i++ {
+		var sb strings.Builder
+		np := 0
+		for k := 0; k < 2+rng.Intn(4); k++ {
+			sb.WriteByte('/')
+			switch rng.Intn(4) {
+			case 0:
+				np++
+				fmt.Fprintf(&sb, "{p%d}", np)
+			case 1:
+				np++
+				fmt.Fprintf(&sb, "%s{p%d}%s", lp.Pick(rng, []string{"", "v", "%7E"}), np, lp.Pick(rng, []string{"", ".json", "%2Fx", "-%61"}))
+			default:
+				sb.WriteString(lp.Pick(rng, segs))
+			}
+		}
+		key := sb.String()
+		canon, ok := refNormalize(key)
+		if !ok {
+			continue
+		}
+		spelled := respellStatic(rng, key)
+		parse := func(k string) string {
+			return lp.Guard(func() string {
+				spec, err := ogen.Parse([]byte(specForRoutes([]rroute{{"GET", k}})))
+				if err != nil {
+					return "parse-err:" + err.Error()
+				}
+				api, err := parser.Parse(spec, parser.Settings{})
+				if err != nil {
+					return "err:" + err.Error()
+				}
+				if len(api.Operations) != 1 {
+					return fmt.Sprint("operations:", len(api.Operations))
+				}
+				return "path " + api.Operations[0].Path.String()
+			})
+		}
+		got := parse(spelled)
+		r.Count("speckeyparts "+spelled, "spec-key-parts", spelled != key && np > 0)
+		r.PropCheck()
+		if want := "path " + canon; got != want {
+			r.Fail(lp.PropFail{Property: "C12", What: "a spec path key is not held in normal form (static text before, between or after parameters)", Input: map[string]any{"key": spelled, "canonical_key": canon}, Observed: got, Expected: want})
+		}
+	}
+}
+
 // respellEscaped: re-spell an already escaped path: flip hex case of escapes, needlessly escape unreserved bytes
 func respellEscaped(rng *lp.Rand, p string) string {
 	var sb strings.Builder
@@ -318,11 +384,38 @@ func c12Router(r *lp.Run, rng *lp.Rand) {
 		panic(err)
 	}
 	defer os.RemoveAll(mod.Dir)
-	routes := []rroute{{"GET", "/pet/{name}"}, {"GET", "/pet/{name}/toys/{toy}"}, {"GET", "/a-b/c~d"}, {"POST", "/pet/{name}"}, {"GET", "/v1/{x}.json"}}
+	routes := []rroute{{"GET", "/pet/{name}"}, {"GET", "/pet/{name}/toys/{toy}"}, {"GET", "/a-b/c~d"}, {"POST", "/pet/{name}"}, {"GET", "/v1/{x}.json"},
+		{"GET", "/pet/{name}/photos"}, {"GET", "/users/{who}/a%2Fb"}, {"GET", "/users/{who}/a%2Fb/{sub}/z~"}}
 	pkg, err := mod.Add("nr", []byte(specForRoutes(routes)), gen.Options{})
 	if err != nil {
 		r.Fail(lp.PropFail{Property: "C12", What: "the generator refuses the route set of the normalization check", Input: rsetLine(routes), Observed: err.Error(), Expected: "generated router"})
 		return
+	}
+	// the same routes under re-spelled spec keys (static text only): a second server that must behave alike
+	routes2 := make([]rroute, len(routes))
+	spelledAs := map[string]string{}
+	for i, rt := range routes {
+		if _, ok := spelledAs[rt.tmpl]; !ok {
+			spelledAs[rt.tmpl] = respellStatic(rng, rt.tmpl)
+		}
+		routes2[i] = rroute{rt.method, spelledAs[rt.tmpl]}
+		if i >= 5 {
+			// make sure the text after the parameter is re-spelled
+			routes2[i].tmpl = strings.NewReplacer("photos", "ph%6ftos", "%2F", "%2f", "z~", "%7a%7E").Replace(rt.tmpl)
+		}
+	}
+	pkg2, err := mod.Add("nr2", []byte(specForRoutes(routes2)), gen.Options{})
+	if err != nil {
+		r.Fail(lp.PropFail{Property: "C12", What: "the generator refuses a route set whose keys are equivalent re-spellings of an accepted one", Input: rsetLine(routes2), Observed: err.Error(), Expected: "generated router"})
+		return
+	}
+	stripPattern := func(s string) string {
+		// "F:ok <name> <pattern> <args> S:…" without the pattern (the key as spelled in the spec)
+		f := strings.SplitN(s, " ", 4)
+		if len(f) == 4 && f[0] == "F:ok" {
+			return f[0] + " " + f[1] + " " + f[3]
+		}
+		return s
 	}
 	bin, err := mod.Build()
 	if err != nil {
@@ -334,7 +427,7 @@ func c12Router(r *lp.Run, rng *lp.Rand) {
 		panic(err)
 	}
 	defer drv.Close()
-	args := []string{"a", "a/b", "a b", "é", "a%b", "x.y", "~", "A-Z", "a%2Fb", "+", "a;b=c"}
+	args := []string{"a", "a/b", "a b", "é", "a%b", "x.y", "~", "A-Z", "a%2Fb", "+", "a;b=c", "a+b c", "1+1%", "+ +", "a&b=c d", "%2B"}
 	for _, prefix := range []string{"", "/api/v1", "/a~b"} {
 		for _, rt := range routes {
 			n := tmplNParams(rt.tmpl)
@@ -368,6 +461,40 @@ func c12Router(r *lp.Run, rng *lp.Rand) {
 					r.Fail(lp.PropFail{Property: "C12", What: "driver failure", Input: canonical, Observed: fmt.Sprint(ans), Expected: "results"})
 					return
 				}
+				// every spelling delivers the octets that were escaped into it (FindPath arguments and the
+				// handler's decoded parameters), not merely the same thing as the other spellings
+				// (a value holding the byte that ends its parameter is matched by the router's first-delimiter
+				// rule and misses in every spelling: route semantics, decided under C05)
+				if n > 0 && !strings.HasPrefix(fmt.Sprint(res[0]), "F:miss") {
+					pnames := tmplParamRe.FindAllStringSubmatch(rt.tmpl, -1)
+					fields := make([]string, n)
+					for j := range vals {
+						fields[j] = strings.ToUpper(pnames[j][1][:1]) + pnames[j][1][1:] + "=" + fmt.Sprintf("%q", vals[j])
+					}
+					wantArgs := " " + gcHexArgs(vals) + " S:"
+					wantParams := "{" + strings.Join(fields, ",") + "}"
+					for i := range res {
+						got := fmt.Sprint(res[i])
+						r.Count("c12router-abs "+prefix+spellings[i], "router-delivers-octets", strings.Contains(spellings[i], "+"))
+						r.PropCheck()
+						if !strings.Contains(got, wantArgs) || !strings.HasSuffix(got, wantParams) {
+							r.Fail(lp.PropFail{Property: "C12", What: "a request path does not deliver the octets escaped into its parameter segments", Input: map[string]any{"routes": rsetLine(routes), "prefix": prefix, "method": rt.method, "path": spellings[i], "values": vals}, Observed: got, Expected: "FindPath arguments" + wantArgs + " and handler parameters " + wantParams})
+						}
+					}
+				}
+				ans2, _ := drv.Do(map[string]any{"pkg": pkg2.Name, "cmd": "batch", "prefix": prefix, "items": items})
+				if res2, ok := ans2["results"].([]any); ok && len(res2) == len(res) {
+					for i := range res {
+						r.Count("c12router-keys "+prefix+spellings[i], "router-respelled-spec-keys", true)
+						r.PropCheck()
+						if stripPattern(fmt.Sprint(res2[i])) != stripPattern(fmt.Sprint(res[i])) {
+							r.Fail(lp.PropFail{Property: "C12", What: "two servers generated from spec path keys that differ only in hex case / needless escaping dispatch a request differently", Input: map[string]any{"routes_a": rsetLine(routes), "routes_b": rsetLine(routes2), "prefix": prefix, "method": rt.method, "path": spellings[i]}, Observed: fmt.Sprint(res2[i]), Expected: fmt.Sprint(res[i])})
+						}
+					}
+				} else {
+					r.Fail(lp.PropFail{Property: "C12", What: "driver failure", Input: canonical, Observed: fmt.Sprint(ans2), Expected: "results"})
+					return
+				}
 				for i := 1; i < len(res); i++ {
 					r.Count("c12router "+prefix+spellings[i], "router-respelling", spellings[i] != canonical)
 					r.PropCheck()
@@ -378,6 +505,14 @@ func c12Router(r *lp.Run, rng *lp.Rand) {
 			}
 		}
 	}
+}
+
+func gcHexArgs(args []string) string {
+	parts := make([]string, len(args))
+	for i, a := range args {
+		parts[i] = fmt.Sprintf("%x", a)
+	}
+	return strings.Join(parts, ",")
 }
 
 // equivalent re-escapings normalize to the same string (implementation-only check)
